@@ -1,8 +1,143 @@
-import AlgoVerif.Common
-/-! Line-protocol component for C06 — not built yet. -/
-namespace AlgoVerif.C06.Driver
+import AlgoVerif.Model.C06Run
+/-!
+Line-protocol component for C06 (values are `Int`; keys are hex-encoded, `-` is the empty string).
 
-def runCase (_hdr : List String) (ops : List String) : List String :=
-  ops.map fun _ => "bad-case"
+    put <hex> <int> | get <hex> | delete <hex> | deletemin | deletemax | deleteall | size | min | max
+    floor <hex> | ceiling <hex> | select <int> | rank <hex> | range <hex> <hex> | rangesize <hex> <hex>
+    all | withprefix <hex> | longestprefixof <hex> | match <hex> | dump
+-/
+namespace AlgoVerif.C06.Driver
+open AlgoVerif AlgoVerif.C06
+
+def hexVal (c : Char) : Option Nat :=
+  if '0' ≤ c ∧ c ≤ '9' then some (c.toNat - '0'.toNat)
+  else if 'a' ≤ c ∧ c ≤ 'f' then some (c.toNat - 'a'.toNat + 10)
+  else none
+
+def parseHexList : List Char → Option Key
+  | [] => some []
+  | a :: b :: rest =>
+    match hexVal a, hexVal b, parseHexList rest with
+    | some x, some y, some r => some (UInt8.ofNat (16 * x + y) :: r)
+    | _, _, _ => none
+  | _ => none
+
+def parseKey (s : String) : Option Key :=
+  if s = "-" then some [] else parseHexList s.toList
+
+def hexDigit (n : Nat) : Char :=
+  if n < 10 then Char.ofNat ('0'.toNat + n) else Char.ofNat ('a'.toNat + n - 10)
+
+def showByte (b : UInt8) : String := String.ofList [hexDigit (b.toNat / 16), hexDigit (b.toNat % 16)]
+
+def showKey (k : Key) : String :=
+  if k.isEmpty then "-" else String.join (k.map showByte)
+
+def showKV : Option (Key × Int) → String
+  | some (k, v) => s!"ok some {showKey k} {v}"
+  | none => "ok none"
+
+def showList (l : List (Key × Int)) : String :=
+  "ok [" ++ " ".intercalate (l.map fun e => s!"{showKey e.1}:{e.2}") ++ "]"
+
+def showOut : Out Int → String
+  | .unit => "ok"
+  | .val (some v) => s!"ok some {v}"
+  | .val none => "ok none"
+  | .kv o => showKV o
+  | .int n => s!"ok {n}"
+  | .list l => showList l
+
+def parseOp (line : String) : Option (Op Int) :=
+  match words line with
+  | ["put", k, v] => do some (.put (← parseKey k) (← parseInt? v))
+  | ["get", k] => do some (.get (← parseKey k))
+  | ["delete", k] => do some (.delete (← parseKey k))
+  | ["deletemin"] => some .deleteMin
+  | ["deletemax"] => some .deleteMax
+  | ["deleteall"] => some .deleteAll
+  | ["size"] => some .size
+  | ["min"] => some .min
+  | ["max"] => some .max
+  | ["floor", k] => do some (.floor (← parseKey k))
+  | ["ceiling", k] => do some (.ceiling (← parseKey k))
+  | ["select", i] => do some (.select (← parseInt? i))
+  | ["rank", k] => do some (.rank (← parseKey k))
+  | ["range", a, b] => do some (.range (← parseKey a) (← parseKey b))
+  | ["rangesize", a, b] => do some (.rangeSize (← parseKey a) (← parseKey b))
+  | ["all"] => some .all
+  | ["withprefix", k] => do some (.withPrefix (← parseKey k))
+  | ["longestprefixof", k] => do some (.longestPrefixOf (← parseKey k))
+  | ["match", k] => do some (.match (← parseKey k))
+  | _ => none
+
+/-! ### state dumps (same text as `trie.VerifDump`) -/
+
+def dumpBNode : BNode Int → String
+  | .nil => "."
+  | .node ch val term l r =>
+    s!"({showByte ch} {if term then "t" else "f"} {val} {dumpBNode l} {dumpBNode r})"
+
+def dumpBinary (t : Binary Int) : String := s!"size={t.size} {dumpBNode t.root}"
+
+/-- pre-order numbering over the downward links -/
+def numberNodes (t : Patricia Int) : Nat → Option Nat → Array Nat → Array Nat
+  | 0, _, order => order
+  | f + 1, p, order =>
+    match p with
+    | none => order
+    | some i =>
+      if order.contains i then order else
+      match t.nodes[i]? with
+      | none => order
+      | some n =>
+        let order := order.push i
+        let down (q : Option Nat) : Bool :=
+          match q with
+          | some j => (match t.nodes[j]? with | some m => m.bp > n.bp | none => false)
+          | none => false
+        let order := if down n.left then numberNodes t f n.left order else order
+        if down n.right then numberNodes t f n.right order else order
+
+def dumpPatricia (t : Patricia Int) : String :=
+  match t.root with
+  | none => s!"size={t.size} root=."
+  | some _ =>
+    let order := numberNodes t (t.nodes.size + 1) t.root #[]
+    let ref (q : Option Nat) : String :=
+      match q with
+      | none => "."
+      | some j => match order.idxOf? j with
+        | some k => toString k
+        | none => "?"
+    let cells := order.toList.zipIdx.map fun (i, k) =>
+      match t.nodes[i]? with
+      | some n => s!" [{k} {n.bp} {showKey n.key} {n.val} {ref n.left} {ref n.right}]"
+      | none => " [?]"
+    s!"size={t.size} root=0" ++ String.join cells
+
+/-- run the ops of one case; after a `panic`/`diverge` the remaining ops print `skip`. -/
+def runWith {σ : Type} (step : σ → Op Int → Outcome (σ × Out Int)) (dump : σ → String) (init : σ)
+    (ops : List String) : List String := Id.run do
+  let mut s := init
+  let mut dead := false
+  let mut out : Array String := #[]
+  for line in ops do
+    if dead then out := out.push "skip"; continue
+    if line.trimAscii.toString == "dump" then out := out.push ("ok " ++ dump s); continue
+    match parseOp line with
+    | none => out := out.push "bad-op"
+    | some op =>
+      match step s op with
+      | .ok (s', o) => s := s'; out := out.push (showOut o)
+      | .panic => dead := true; out := out.push "panic"
+      | .diverge => dead := true; out := out.push "hang"
+  return out.toList
+
+def runCase (hdr : List String) (ops : List String) : List String :=
+  match headerGet hdr "comp" with
+  | some "binary" => runWith Binary.step dumpBinary (Binary.new : Binary Int) ops
+  | some "patricia" => runWith Patricia.step dumpPatricia (Patricia.new : Patricia Int) ops
+  | _ => ops.map fun _ => "bad-case"
 
 end AlgoVerif.C06.Driver
